@@ -16,6 +16,9 @@ inductive Tok where
   | s (v : List Char)
   | n (v : Nat)
   | g (ts : List Tok)
+  /-- annotation, invisible in `as_list()`: the tokens `ts` were produced by an element carrying results name `name`
+      (`ParseResults(tokens, name, asList, modal)`, core.py:861-863) -/
+  | nm (name : List Char) (modal asList : Bool) (ts : List Tok)
   deriving Repr, Inhabited
 
 /-- exception classes (pyparsing/exceptions.py): `ParseException`, `ParseFatalException`,
@@ -50,6 +53,10 @@ inductive Act where
   | failF                      -- raises ParseFatalException(s, loc, ..)
   | condFalse (fatal : Bool)   -- add_condition(lambda: False, fatal=..)
   | condTrue
+  /-- not a user action: the results-name binding of `_parseNoCache` (`ret_tokens = ParseResults(tokens, self.resultsName,
+      asList=self.saveAsList, modal=self.modalResults)`), emitted by the extraction in front of the element's actions
+      and again after every action that replaces the tokens (core.py:874-904) -/
+  | name (n : List Char) (modal asList : Bool)
   deriving Repr, Inhabited
 
 inductive Kind where
